@@ -48,6 +48,14 @@ Inv == /\ l <= Len(Trace) /\ Ev.t = "inv"
        /\ pend' = Upd(pend, Ev.c, [op |-> Ev.op, ph |-> "inv"])
        /\ l' = l + 1 /\ UNCHANGED <<st, cfg>>
 
+\* C15: the server process was killed and restarted on the same storage.  Every
+\* operation still pending has either taken effect (a silent Lin step before
+\* this event) or not at all; its reply is lost either way.  Operations whose
+\* reply was received were linearized before: their effect must have survived.
+Crash == /\ l <= Len(Trace) /\ Ev.t = "crash"
+         /\ pend' = <<>>
+         /\ l' = l + 1 /\ UNCHANGED <<st, cfg>>
+
 \* ---- silent linearization steps ----
 Lin(c) ==
   /\ pend[c].ph = "inv" /\ pend[c].op.op # "CopyObject"
@@ -109,7 +117,7 @@ Final == /\ l <= Len(Trace) /\ Ev.t = "final"
               \E i \in 1..Len(Ev.objs) : Ev.objs[i].b = b /\ Ev.objs[i].k = k /\ Ev.objs[i].present
          /\ l' = l + 1 /\ UNCHANGED <<st, cfg, pend>>
 
-Next == Reset \/ Inv \/ Res \/ Final \/ (\E c \in DOMAIN pend : Lin(c) \/ CopyRd(c) \/ CopyWr(c))
+Next == Reset \/ Inv \/ Res \/ Final \/ Crash \/ (\E c \in DOMAIN pend : Lin(c) \/ CopyRd(c) \/ CopyWr(c))
 Spec == Init /\ [][Next]_vars
 
 \* witness mode (many clients): with a depth-first queue TLC stops at the first
